@@ -1,6 +1,7 @@
 ---- MODULE MC_Accounts ----
 EXTENDS Accounts, Json, Randomization
-CONSTANTS Depth, SVal
+CONSTANTS Depth, SVal,
+          SetupAddrs   \* accounts that exist with committed storage in InitSetup
 
 LogAppend(h, r) == Append(h, r)
 LogLast(h, r) == <<r>>
@@ -24,6 +25,31 @@ ChMixed  == ChCode \cup ChSto \cup ChFields
 ChAll    == {[dn |-> dn, bal |-> b, owner |-> o, meta |-> o2, code |-> c, w |-> w] :
                 dn \in {0, 1}, b \in {-1, 1, 2}, o \in {"keep", "o1"}, o2 \in {"keep", "", "m1"},
                 c \in Code \cup {"keep", ""}, w \in W1 \cup W2d \cup {<<>>}}
+
+\* ---- behaviours that start from a COMMITTED state: the accounts in SetupAddrs exist with committed storage (every key
+\* = SetupVal) and nothing has been loaded since that commit (the data tries holder is empty).  The harness reaches
+\* this state with Save + Commit and, in its second pass, reads nothing before the calls of the behaviour, so calls
+\* like RemoveAccount hit accounts whose data trie is NOT in the holder (as in a new block).
+SetupVal   == "v1"
+SetupSto   == [k \in SKey |-> SetupVal]
+SetupRec   == [ex |-> TRUE, nonce |-> 0, bal |-> 0, owner |-> "", meta |-> "", code |-> "",
+               root |-> [has |-> TRUE, m |-> SetupSto]]
+InitSetup ==
+    /\ main = [a \in Addr |-> IF a \in SetupAddrs THEN SetupRec ELSE Absent]
+    /\ codeTbl = [c \in Code |-> 0] /\ tries = <<>> /\ holder = NoHolder /\ journal = <<>>
+    /\ committed = [main |-> main, codeTbl |-> codeTbl]
+    /\ persisted = {<<a, SetupSto>> : a \in SetupAddrs}
+    /\ stateAt = (0 :> Abs) /\ expect = Abs
+    /\ hist = <<[a |-> "New", in |-> [setup |-> SetupAddrs, val |-> SetupVal], out |-> [err |-> FALSE, jl |-> 0], st |-> Abs]>>
+\* the accounts without committed storage only provide journal entries (snapshots > 0 that do not touch the others)
+SetupStep ==
+    \/ \E a \in SetupAddrs, ch \in Changes : Save(a, ch)
+    \/ \E a \in Addr \ SetupAddrs : Save(a, Keep)
+    \/ \E a \in SetupAddrs : Remove(a)
+    \/ \E n \in DOMAIN stateAt : Revert(n)
+    \/ Commit
+SetupSpec    == InitSetup /\ [][SetupStep]_vars
+GenSetupSpec == InitSetup /\ [][Len(hist) < Depth /\ SetupStep]_vars
 
 \* exhaustive checking is bounded by the search depth
 DepthBound == TLCGet("level") <= Depth
@@ -52,5 +78,6 @@ SimStep ==
     \/ RandomElement(1..3) = 1 /\ Commit
 SimNext  == IF Len(hist) < Depth - 1 THEN SimStep ELSE (Len(hist) = Depth - 1 /\ End)
 SimSpec  == Init /\ [][SimNext]_vars
+SimSetupSpec == InitSetup /\ [][SimNext]_vars
 EmitFull == (Len(hist') = Depth) => PrintT("@@B " \o ToJson(hist'))
 ====
